@@ -1,6 +1,6 @@
 SPECIFICATION Spec
 CONSTANT Reps = {"a", "b", "c"}
 CONSTANT MaxPub = 3
-CONSTANT MaxActs = 2
+CONSTANT MaxActs = 1
 INVARIANT IgnoresUntrusted
 INVARIANT LonerKeepsOwn
